@@ -50,6 +50,10 @@ CHECKS["C16"] = ("RESTORE", MC, "explicit-state reach set of the real connection
    "Every state of the closure of the C06 / C07 session alphabet on a persistent session is a crash point: the stored packets and the handled-id set are exported, restored into a fresh object of the same role / version / options, and both the original (after notify_closed) and the restored object resume the session (thorough and v5: also with Receive Maximum 1). Required: equal canonical events during the resume, equal verif_state, equal events and successor states for a continuation alphabet (every acknowledgement kind for ids 1..3, QoS 2 duplicates, register of ids 1..3, a new publish, the vacancy); plus absolute clauses on the restored object (retransmission list = export in order, restored ids cannot be registered, the matching acknowledgement is accepted and releases, handled QoS 2 duplicates are answered with PUBREC and not notified). Malformed exports (duplicate ids, QoS 0 entry) are skipped without panic.",
    "Crash points are application step boundaries (DESIGN §2.4). A defect that affects original and restored object identically is invisible to the differential part (C06 / C12 decide those).",
    "DESIGN.md §3 C16")
+CHECKS["C01"] = ("PAIR", MC, "explicit-state BFS of two real connection objects joined by byte queues (all interleavings, chunkings and loss points)",
+   "A real client connection and a real server connection exchange exactly the bytes each requests to send. For every configuration (v3.1.1 / v5.0, automatic / manual / mixed responses, Receive Maximum each way, Topic Alias Maximum with manual / auto-map / auto-replace, Maximum Packet Size equal to the largest workload packet, keep-alive with timer expiries) the closure of all interleavings of workload operations from both sides (publish QoS 0/1/2 on two topics, with and without manual aliases, subscribe / unsubscribe / ping; quick 2, thorough 3-4 operations), whole-frame and partial deliveries in both directions (cut after 1 byte, after the fixed header, mid-body) and transport losses at every point (quick 1, thorough 2; everything in flight discarded, both sides told, persistent session resumed with the same limits) is explored. Oracle: no protocol error reported by either side, no panic, the delivery-only sub-graph is acyclic (no endless response loop), and in every quiescent state QoS 2 messages were notified exactly once, QoS 1 at least once (exactly once without loss), QoS 0 at most once with original topic and payload, both sides idle (no id in use, empty stores and pid sets, empty handled set, full Receive Maximum vacancy).",
+   "Bounded by the workload size, one partial delivery and the loss budget; all explorations of the quick tier close. Trusts the verif_state hook for the idle clause.",
+   "DESIGN.md §3 C01")
 NOT_YET = {}
 
 def main():
